@@ -137,3 +137,5 @@ func die(f string, a ...interface{}) {
 }
 
 func envBase() string { return os.Getenv("VERIF_BASE") }
+
+func bufioReader(s string) *bufio.Reader { return bufio.NewReader(strings.NewReader(s)) }
